@@ -1,6 +1,7 @@
 (* Properties/C01.v -- C01: every stored snapshot is a valid texture, after any update history *)
 From Coq Require Import Reals ZArith List.
-From PV Require Import Num NumR Model_core Model_minerals Proofs_core Proofs_minerals.
+From Coquelicot Require Import Hierarchy Derive.
+From PV Require Import Num NumR Model_core Model_minerals Proofs_core Proofs_minerals Proofs_flow.
 From PV.gen Require Import Gen_core.
 Import ListNotations.
 Open Scope R_scope.
@@ -47,6 +48,18 @@ Theorem C01_rate_conserves_orthonormality_first_order :
   @derivs NumR regime ph fb os fs D L S p n lam M phi = Ok (Ads, fds) ->
   Forall2 skew_wrt os Ads.
 Proof. exact derivs_skew. Qed.
+
+(* ... and therefore every entry of A(t).A(t)^T is constant along any EXACT solution whose rate
+   has that property (Coquelicot is_derive); LSODA's deviation from the exact solution is what
+   the runtime monitor measures *)
+Theorem C01_orthonormality_is_first_integral : forall (A Ad : nat -> nat -> R -> R) (a b : R),
+  a <= b -> (forall p q t, a <= t <= b -> is_derive (A p q) t (Ad p q t)) ->
+  forall p p' : nat,
+  (forall t, a <= t <= b ->
+    Ad p 0%nat t * A p' 0%nat t + Ad p 1%nat t * A p' 1%nat t + Ad p 2%nat t * A p' 2%nat t
+    + (A p 0%nat t * Ad p' 0%nat t + A p 1%nat t * Ad p' 1%nat t + A p 2%nat t * Ad p' 2%nat t) = 0) ->
+  gram A p p' b = gram A p p' a.
+Proof. exact orthonormality_first_integral. Qed.
 
 Example C01_nonvacuous :
   let y := [1;0;0; 0;1;0; 0;0;1;  1;0;0; 0;1;0; 0;0;1;  0;1;0; -1;0;0; 0;0;1;  0.25; 0.75] in
